@@ -143,6 +143,42 @@ def forwardsPreference (v : String) : Bool :=
    "storage.ConsistencyOptions{ Preference: consistency, }",
    "consistencyOpts"].contains v
 
+/-! ### 1b. construction sites of readers: is the request's preference handed to what is built? -/
+
+/-- `(kind, carrier, expression)`: `arg` = a With…Consistency option among the constructor's own arguments,
+`lit` = a `Consistency:` field of a composite literal in the constructing function, `opt` = a With…Consistency
+call anywhere in it -/
+abbrev Evidence := String × String × String
+/-- `(file, function, constructor, evidence)` -/
+abbrev ReaderSite := String × String × String × List Evidence
+
+/-- expressions through which an engine function hands on the consistency preference of the request it serves -/
+def handoffExprs : List String :=
+  ["req.GetConsistency()", "req.Consistency", "params.Consistency", "info.req.Consistency",
+   "o.GetConsistency()", "r.GetConsistency()", "p.Consistency"]
+
+/-- constructors whose product can answer a read from a cache -/
+def cacheCapableCtors : List String :=
+  ["storagewrappers.NewRequestStorageWrapperWithCache", "storagewrappers.NewCachedTupleReader",
+   "storagewrappers.NewCachedDatastore", "sharediterator.NewSharedIteratorDatastore", "pipeline.NewValidatingStore"]
+
+def ReaderSite.cacheCapable (s : ReaderSite) : Bool := cacheCapableCtors.contains s.2.2.1
+
+/-- the reads that go through the product of this site carry the request's preference:
+* `pipeline.NewValidatingStore` stamps every read option with its own `consistency` field — the option
+  `pipeline.WithStoreConsistency(<preference of the request>)` must be among its arguments;
+* the other wrappers are passive (they look at the options of each read): the function that builds one must
+  hand the preference on to the engine it starts (some evidence), and every hand-off it makes must be the
+  request's preference. -/
+def ReaderSite.passes (s : ReaderSite) : Bool :=
+  if s.2.2.1 = "pipeline.NewValidatingStore" then
+    s.2.2.2.any (fun e => e.1 = "arg" && e.2.1 = "pipeline.WithStoreConsistency" && handoffExprs.contains e.2.2)
+  else
+    !s.2.2.2.isEmpty && s.2.2.2.all (fun e => handoffExprs.contains e.2.2)
+
+/-- the preference the reads of a site's product carry -/
+def effectivePref {P : Type} (unspecified : P) (passes : Bool) (pref : P) : P := if passes then pref else unspecified
+
 /-! ### 2. layered reader and engine -/
 
 inductive Pref where
